@@ -157,6 +157,35 @@ P["C13"] = dict(
     ref="DESIGN.md section 3, C13",
 )
 
+P["C15"] = dict(
+    text="Allocation freedom of the formatter decided as an effect analysis over its whole call closure (compiler escape diagnostics must be clean "
+         "and positive, no SSA operation allocates, every kernel call site of Printf/Fprintf is free of escape diagnostics); exhaustiveness of the "
+         "integer type switch over all 11 built-in integer types with matching signedness (found and fixed F2); constant relations of the scratch "
+         "buffer (single initialiser of maxBufSize+1 bytes, clamped width, guarded digit loop); argument bound test and the three markers. Exact "
+         "output text and 'never panics' in general are not decided.",
+    technique="effect analysis (go build -gcflags=-m escape diagnostics + allocating SSA operations over the call closure) + type-switch exhaustiveness",
+    ref="DESIGN.md section 3, C15",
+    note_extra="The escape analysis is the Go compiler's own (go build -gcflags=-m over /repo/kernel's working tree, offline); it compiles and does not execute the kernel.",
+)
+
+P["C19"] = dict(
+    text="Guards and reachability of the console painters on all paths: range tests dominate every paint site and every scroll copy, painters are "
+         "reachable only from their guarded entry point, the caller-supplied Fill rectangle never enters arithmetic before being bounded (found and "
+         "fixed F5), all colour-depth switches partition identically and write no more bytes per pixel than bytesPerPixel, rows are addressed only "
+         "through fbOffset (logo area). Pixel-exact rendering, padding bytes and the glyph walk's memory safety are not decided.",
+    technique="SSA dominance + who-may-call + unbounded-argument wrap rule + switch partition agreement + polynomial forms",
+    ref="DESIGN.md section 3, C19",
+)
+
+P["C20"] = dict(
+    text="Reproducibility and selection structure of the redirect scan: no append to the table or the file list under a map range (found and fixed "
+         "F6), no goroutines, the scanned file set and the entry guards (FuncDecl, Doc, directive prefix) dominate the append, one entry per "
+         "annotation line in source order, the recorded symbols' data flow, and order preservation through CompleteRedirects / NUM_REDIRECTS / main. "
+         "That the tool finds every annotation of every tree (go/parser behaviour) is not decided.",
+    technique="order-sensitivity rule (map range feeding an ordered sink) + SSA dominance + value-flow matching",
+    ref="DESIGN.md section 3, C20",
+)
+
 ALL = ["C%02d" % i for i in range(1, 21)]
 
 def main():
